@@ -60,6 +60,9 @@ def gen_case(rng, tier, idx):
         if tpl["a"] == "limit":
             tpl["offgrid"] = 0.0
     prog["p_act"] = rng.choice([0.6, 1.0])
+    if idx % 4 == 2:
+        # agents that send the same Cancel object again in a later step (it carries the stamp of its first use)
+        prog["resend_cancels"] = True
     cfg["A"] = {"class": "ScriptAgent", "numAgents": rng.randint(2, 4), "markets": mk, "cashAmount": 100000,
                 "assetVolume": 50, "program": prog}
     cfg["simulation"]["agents"].append("A")
@@ -148,7 +151,7 @@ class C13Monitor:
             self.occ.append(("order_before", id(ev["order"]), ev["time"], ev["mkt"], None))
             self.keep.append(ev["order"])
         elif k == "add_ret":
-            self.occ.append(("order_after", id(ev["log"]), ev["log"].time, ev["mkt"], None))
+            self.occ.append(("order_after", id(ev["log"]), ev["time"], ev["mkt"], None))
             self.keep.append(ev["log"])
             pa = self.pending_alter.pop(id(ev["order"]), None)
             if pa is not None:
@@ -174,11 +177,12 @@ class C13Monitor:
             self.calls_at[(id(ev["cancel"]), ev["time"])] = self.calls_at.get((id(ev["cancel"]), ev["time"]), 0) + 1
             self.keep.append(ev["cancel"])
         elif k == "cancel_ret":
-            self.occ.append(("cancel_after", id(ev["log"]), ev["log"].cancel_time, ev["mkt"], None))
+            # (the time of the occurrence is the market's time when the cancel was accepted - not the stamp in the record)
+            self.occ.append(("cancel_after", id(ev["log"]), ev["time"], ev["mkt"], None))
             self.keep.append(ev["log"])
         elif k == "exec_ret":
             for log in ev["logs"]:
-                self.occ.append(("execution_after", id(log), log.time, ev["mkt"], None))
+                self.occ.append(("execution_after", id(log), ev["time"], ev["mkt"], None))
                 self.keep.append(log)
         elif k == "log_write":
             n = type(ev["log"]).__name__
